@@ -39,6 +39,10 @@ pub enum Op {
     BlockAdd { l: usize, kind: Kind, text: String },
     Append { t: usize, l: usize, kp: usize },
     From { t: usize, pk: usize, corrupt: bool },
+    /// a token minted by another party through the Rust API (content the C builders cannot
+    /// write: text holding a NUL, a third-party block, very long text, 3.3 values) loaded with
+    /// biscuit_from
+    FromForeign { kp: usize, content: u8, seed: u8 },
     Serialize { t: usize },
     SerializeSealed { t: usize },
     BlockCount { t: usize },
@@ -197,6 +201,54 @@ fn expected_kind(e: &MErr) -> Vec<u32> {
     }
 }
 
+/// a token minted by another party with the Rust API; every key comes from `seed`
+fn foreign_token(root: &KeyPair, content: u8, seed: u8) -> Option<Biscuit> {
+    use biscuit_auth::builder::{fact, pred, rule, string, int, Check, CheckKind, Term};
+    let key = |k: u8| KeyPair::new_with_rng(Algorithm::Ed25519, &mut StdRng::from_seed([seed ^ k; 32]));
+    let failing = |what: Term| Check { queries: vec![rule("q", &[] as &[Term], &[pred("missing", &[what])])], kind: CheckKind::One };
+    let symbols = biscuit_auth::datalog::SymbolTable::new;
+    let mut b = BiscuitBuilder::new();
+    match content % 4 {
+        0 => {
+            // text no C string can carry
+            b = b.context("ctx\0hidden".to_string());
+            b = b.fact(fact("note", &[string("a\0b")])).ok()?;
+            b = b.check(failing(string("x\0y"))).ok()?;
+        }
+        1 => {
+            b = b.fact(fact("user", &[int(1)])).ok()?;
+            if seed % 2 == 1 {
+                b = b.check(failing(int(1))).ok()?;
+            }
+            let tok = b.build_with_key_pair(root, symbols(), &key(1)).ok()?;
+            let signer = key(2);
+            let req = tok.third_party_request().ok()?;
+            let block = BlockBuilder::new().code("group(\"admin\"); check if user(1) trusting authority;").ok()?;
+            let resp = req.create_block(&signer.private(), block).ok()?;
+            return tok.append_third_party_with_keypair(signer.public(), resp, key(3)).ok();
+        }
+        2 => {
+            b = b.context("x".repeat(70_000));
+            b = b.fact(fact("note", &[string(&"y".repeat(70_000))])).ok()?;
+            if seed % 2 == 1 {
+                b = b.check(failing(string(&"z".repeat(70_000)))).ok()?;
+            }
+        }
+        _ => {
+            b = b.code("data([1, 2], {\"a\": 1}, null); check if [1, 2].contains(1); check if {\"a\": 1}.get(\"a\") == 1;").ok()?;
+            if seed % 2 == 1 {
+                b = b.check(failing(int(3))).ok()?;
+            }
+        }
+    }
+    b.build_with_key_pair(root, symbols(), &key(1)).ok()
+}
+
+/// what a C caller can receive of a Rust string: nothing when it holds a NUL
+fn c_view(s: Option<String>) -> Option<String> {
+    s.filter(|x| !x.contains('\0'))
+}
+
 fn expected_checks(e: &MErr) -> Vec<(u64, u64, bool, Option<String>)> {
     use error::*;
     let list = match e {
@@ -206,8 +258,8 @@ fn expected_checks(e: &MErr) -> Vec<(u64, u64, bool, Option<String>)> {
     let mut out: Vec<(u64, u64, bool, Option<String>)> = list
         .iter()
         .map(|c| match c {
-            FailedCheck::Block(b) => (b.check_id as u64, b.block_id as u64, false, Some(b.rule.clone())),
-            FailedCheck::Authorizer(a) => (a.check_id as u64, u64::MAX, true, Some(a.rule.clone())),
+            FailedCheck::Block(b) => (b.check_id as u64, b.block_id as u64, false, c_view(Some(b.rule.clone()))),
+            FailedCheck::Authorizer(a) => (a.check_id as u64, u64::MAX, true, c_view(Some(a.rule.clone()))),
         })
         .collect();
     // the probe also asks for one index past the end
@@ -774,6 +826,63 @@ impl<'a> Exec<'a> {
                     }
                 }
             }
+            Op::FromForeign { kp, content, seed } => {
+                let ki = match pick!(self.slots.kp, *kp) {
+                    Some(i) => i,
+                    None => return,
+                };
+                let (kp_ptr, root) = match &self.slots.kp[ki] {
+                    (p, Some(k)) if *p != 0 => (*p, k),
+                    _ => return,
+                };
+                let tok = match foreign_token(root, *content, *seed) {
+                    Some(t) => t,
+                    None => {
+                        self.stats.bump("skip.foreign_token");
+                        return;
+                    }
+                };
+                let bytes = match tok.to_vec() {
+                    Ok(b) => b,
+                    Err(_) => return,
+                };
+                self.stats.bump(&format!("c19.foreign_token.{content}"));
+                let b2 = bytes.clone();
+                let r = on(
+                    self.callers,
+                    th,
+                    Box::new(move || unsafe {
+                        let pk = c::key_pair_public((kp_ptr as *const c::KeyPair).as_ref());
+                        let root = if null { None } else { pk.as_deref() };
+                        Res::Ptr(c::biscuit_from(b2.as_ptr(), b2.len(), root).map(|b| Box::into_raw(b) as usize).unwrap_or(0))
+                    }),
+                );
+                let ptr = if let Res::Ptr(x) = r { x } else { 0 };
+                self.stats.oracle_evals += 1;
+                if null {
+                    if ptr != 0 {
+                        self.violate("capi-differs", "biscuit_from(NULL root key) returns a token".to_string());
+                    }
+                    self.fail(th, MErr::InvalidArgument);
+                    self.check_error_channel(th, "biscuit_from(NULL root key)");
+                    return;
+                }
+                match Biscuit::from(&bytes, root.public()) {
+                    Ok(twin) => {
+                        if ptr == 0 {
+                            self.violate("capi-differs", "biscuit_from returns NULL for a token minted through the Rust API".to_string());
+                        }
+                        self.slots.t.push((ptr, Some(twin)));
+                    }
+                    Err(e) => {
+                        if ptr != 0 {
+                            self.violate("capi-differs", format!("biscuit_from accepts a token the Rust API refuses with {e:?}"));
+                        }
+                        self.fail(th, MErr::Lib(e));
+                        self.check_error_channel(th, "biscuit_from that must fail");
+                    }
+                }
+            }
             Op::Serialize { t } | Op::SerializeSealed { t } => {
                 let sealed = matches!(call.op, Op::SerializeSealed { .. });
                 let ti = match pick!(self.slots.t, *t) {
@@ -903,9 +1012,18 @@ impl<'a> Exec<'a> {
                     tok.print_block_source(idx as usize).map(Some).map_err(MErr::Lib)
                 };
                 match want {
-                    Ok(s) => {
+                    Ok(full) => {
+                        let s = c_view(full.clone());
                         if r != Res::Str(s.clone()) {
                             self.violate("capi-differs", format!("accessor gives {:?}, Rust {:?}", r, s));
+                        }
+                        if full.is_some() && s.is_none() {
+                            self.stats.bump("c19.nul_in_text");
+                            // biscuit_print_block_source reports it; biscuit_block_context only returns NULL
+                            if !is_ctx {
+                                self.fail(th, MErr::InvalidArgument);
+                                self.check_error_channel(th, "biscuit_print_block_source of text holding a NUL");
+                            }
                         }
                     }
                     Err(e) => {
@@ -937,9 +1055,15 @@ impl<'a> Exec<'a> {
                     }),
                 );
                 self.stats.oracle_evals += 1;
-                let want = self.slots.t[ti].1.as_ref().map(|x| x.print());
-                if r != Res::Str(want) {
+                let full = self.slots.t[ti].1.as_ref().map(|x| x.print());
+                let want = c_view(full.clone());
+                if r != Res::Str(want.clone()) {
                     self.violate("capi-differs", "biscuit_print differs from Biscuit::print".to_string());
+                }
+                if full.is_some() && want.is_none() {
+                    self.stats.bump("c19.nul_in_text");
+                    self.fail(th, MErr::InvalidArgument);
+                    self.check_error_channel(th, "biscuit_print of text holding a NUL");
                 }
             }
             Op::TokenAuthorizer { t } => {
@@ -1195,9 +1319,16 @@ impl<'a> Exec<'a> {
                     }),
                 );
                 self.stats.oracle_evals += 1;
-                let want = self.slots.a[ai].1.as_ref().map(|m| m.print_world());
-                if r != Res::Str(want) {
+                let full = self.slots.a[ai].1.as_ref().map(|m| m.print_world());
+                let want = c_view(full.clone());
+                if r != Res::Str(want.clone()) {
                     self.violate("capi-differs", "authorizer_print differs from Authorizer::print_world".to_string());
+                }
+                if full.is_some() && want.is_none() {
+                    // text that no C string can carry: refused through the error channel
+                    self.stats.bump("c19.nul_in_text");
+                    self.fail(th, MErr::InvalidArgument);
+                    self.check_error_channel(th, "authorizer_print of text holding a NUL");
                 }
             }
             Op::ErrorProbe => {
@@ -1327,15 +1458,25 @@ impl Engine for CapiEngine {
                 23 => Op::ABuilderBuildUnauth { ab: rng.below(3) },
                 24 => Op::Authorize { a: rng.below(4) },
                 25 => Op::AuthorizerPrint { a: rng.below(4) },
-                _ => {
-                    if rng.chance(1, 2) {
-                        Op::ABuilderBuild { ab: rng.below(3), t: rng.below(4) }
-                    } else {
-                        Op::ErrorProbe
-                    }
-                }
+                _ => match rng.below(5) {
+                    0 | 1 => Op::ABuilderBuild { ab: rng.below(3), t: rng.below(4) },
+                    2 => Op::FromForeign { kp: rng.below(4), content: rng.below(4) as u8, seed: rng.below(250) as u8 },
+                    _ => Op::ErrorProbe,
+                },
             };
+            let foreign = matches!(op, Op::FromForeign { .. });
             push(&mut rng, op, &mut calls);
+            if foreign {
+                // look at what was loaded, and ask a verifier about it
+                push(&mut rng, Op::Print { t: 1000 }, &mut calls);
+                let (i1, i2) = (rng.below(3) as u32, rng.below(3) as u32);
+                push(&mut rng, Op::PrintBlockSource { t: 1000, i: i1 }, &mut calls);
+                push(&mut rng, Op::BlockContextGet { t: 1000, i: i2 }, &mut calls);
+                push(&mut rng, Op::TokenAuthorizer { t: 1000 }, &mut calls);
+                push(&mut rng, Op::Authorize { a: 1000 }, &mut calls);
+                push(&mut rng, Op::ErrorProbe, &mut calls);
+                push(&mut rng, Op::AuthorizerPrint { a: 1000 }, &mut calls);
+            }
         }
         // always end with an authorizer life cycle so that outcomes and error details are compared
         push(&mut rng, Op::ABuilderNew, &mut calls);
